@@ -50,6 +50,52 @@ func (l *logger) take() string {
 	return s
 }
 
+// rle summarises the per-tick observations of a bulk `ticks <n> <t0> <dt>` operation (n housekeeping ticks at t0, t0+dt, …
+// with a silent peer in between) as run lengths: `rle c<cancel marks> 3*none 65535*ping 1*close 2*none`.  The class of a
+// tick is what was observed at it (cancel marks counted apart, ping numbers dropped), several events joined with `+`.
+type rle struct {
+	cancels int
+	parts   []string
+	cur     string
+	n       int
+}
+
+func (r *rle) add(obs string, times int) {
+	var keep []string
+	if obs != "none" {
+		for _, p := range strings.Split(obs, " ; ") {
+			switch {
+			case strings.HasPrefix(p, "cancelping"):
+				r.cancels++
+			case strings.HasPrefix(p, "ping "):
+				keep = append(keep, "ping")
+			case strings.HasPrefix(p, "pingfail"):
+				keep = append(keep, "pingfail")
+			default:
+				keep = append(keep, strings.ReplaceAll(p, " ", "_"))
+			}
+		}
+	}
+	cl := "none"
+	if len(keep) > 0 {
+		cl = strings.Join(keep, "+")
+	}
+	if cl != r.cur && r.n > 0 {
+		r.parts = append(r.parts, fmt.Sprintf("%d*%s", r.n, r.cur))
+		r.n = 0
+	}
+	r.cur = cl
+	r.n += times
+}
+
+func (r *rle) String() string {
+	if r.n > 0 {
+		r.parts = append(r.parts, fmt.Sprintf("%d*%s", r.n, r.cur))
+		r.n = 0
+	}
+	return fmt.Sprintf("rle c%d %s", r.cancels, strings.Join(r.parts, " "))
+}
+
 func sleepTo(start time.Time, t int64) {
 	if d := time.Duration(t) - time.Since(start); d > 0 {
 		time.Sleep(d)
@@ -101,6 +147,40 @@ func runUnit(t *testing.T, c caseDef) []string {
 		for i, f := range c.ops {
 			if closed {
 				out[i] = "none"
+				if f[0] == "ticks" {
+					out[i] = "rle c0 " + f[1] + "*none"
+				}
+				continue
+			}
+			if f[0] == "ticks" {
+				// a long silent stretch: n housekeeping ticks in a row (the far end of the count of unanswered pings)
+				n, _ := strconv.Atoi(f[1])
+				t0, _ := strconv.ParseInt(f[2], 10, 64)
+				dt, _ := strconv.ParseInt(f[3], 10, 64)
+				r := &rle{}
+				for j := 0; j < n; j++ {
+					if closed {
+						r.add("none", n-j)
+						break
+					}
+					func() {
+						defer func() {
+							if rec := recover(); rec != nil {
+								log.add(fmt.Sprintf("panic %v", rec))
+							}
+						}()
+						m.CheckInactivity(start.Add(time.Duration(t0+int64(j)*dt)), cc)
+					}()
+					if len(pongCb) > 64 { // the callbacks of long superseded pings are of no further use to the history
+						for g := range pongCb {
+							if g < gen-8 {
+								delete(pongCb, g)
+							}
+						}
+					}
+					r.add(log.take(), 1)
+				}
+				out[i] = r.String()
 				continue
 			}
 			func() {
@@ -167,7 +247,7 @@ func TestC18Unit(t *testing.T) {
 			flush(w)
 			fmt.Fprintln(w, "end")
 		case cur != nil && (f[0] == "recv" && len(f) == 2 || f[0] == "pong" && len(f) == 3 || f[0] == "tick" && len(f) == 2 ||
-			f[0] == "tickf" && len(f) == 2 || f[0] == "recvk" && len(f) == 3):
+			f[0] == "tickf" && len(f) == 2 || f[0] == "recvk" && len(f) == 3 || f[0] == "ticks" && len(f) == 4):
 			cur.ops = append(cur.ops, f)
 		default:
 			flush(w)
